@@ -1,7 +1,7 @@
 import Spok.Judge.Glob
 /-! oracle driver for the glob engine (C05)
 
-case:  `T <tree> P <pattern>`
+case:  `T <tree> P <pattern> [R <hex root name>] [L <path,…>]`
   * `<tree>`: comma-separated `f:<path>` (regular file) / `d:<path>` (directory) entries, `-` = empty;
     directories above an entry are implied; names use a safe alphabet (no blanks, commas, colons);
   * `<pattern>`: the dependency string, verbatim.
@@ -39,7 +39,9 @@ def handle (line : String) : String :=
   match line.splitOn " | " with
   | [inp, impl] =>
     match (inp.splitOn " ").filter (· ≠ "") with
-    | ["T", tr, "P", ps] =>
+    -- `R <hex>` (the name of the project directory) and `L <paths>` (entries the harness realises as symbolic links to
+    -- something outside the project) do not concern the model: a path is a path, whatever it is reached through
+    | "T" :: tr :: "P" :: ps :: _ =>
       match parseEntries tr "," with
       | none => "BAD-CASE || C05=FAIL"
       | some es =>
